@@ -41,6 +41,8 @@ def main(argv):
     extra = {}
     if getattr(program, "renamed", None):
         chk.note("functions recognised as renamings of reviewed functions (analysed under their reviewed names): " + ", ".join(f"{n} = {o}" for n, o in sorted(program.renamed.items())))
+    if getattr(program, "inlined", None):
+        chk.note("new helper functions spliced into the reviewed functions that call them (sa/inline.py): " + ", ".join(f"{h} -> {', '.join(cs)}" for h, cs in sorted(program.inlined.items())))
     try:
         mod.run(program, chk)
         if tier == "thorough":
